@@ -281,7 +281,6 @@ class DecisionMatrixDominanceAccessor(AccessorABC):
         dom.index.name = "Alternatives"
         return dom
 
-    @methodtools.lru_cache(maxsize=None)
     def dominators_of(self, a, *, strict=False):
         """Array of alternatives that dominate or strictly-dominate the \
         alternative provided by parameters.
@@ -299,13 +298,17 @@ class DecisionMatrixDominanceAccessor(AccessorABC):
             List of alternatives that dominate ``a``.
 
         """
+        return np.array(self._dominators_of(a, strict=strict), copy=True)
+
+    @methodtools.lru_cache(maxsize=None)
+    def _dominators_of(self, a, *, strict=False):
         dominance_a = self.dominance(strict=strict)[a]
         if ~dominance_a.any():
             return np.array([], dtype=str)
 
         dominators = dominance_a.index[dominance_a]
         for dominator in dominators:
-            dominators_dominators = self.dominators_of(
+            dominators_dominators = self._dominators_of(
                 dominator, strict=strict
             )
             dominators = np.concatenate((dominators, dominators_dominators))
